@@ -47,7 +47,7 @@ def gen_real(rng):
     return ("real", Fraction(rng.randrange(0, 50)))
 
 
-STR_ATOMS = ["a", "b", "Z", "0", " ", "é", "é", "€", "\n", "\t", "\\", "'", '"', "é", "\U0001f600", "#", "@"]
+STR_ATOMS = ["a", "b", "Z", "0", " ", "é", "é", "€", "\n", "\t", "\\", "'", '"', "é", "\U0001f600", "#", "@", "e", "\u0301", "\u0301", "\u0327", "a\u0308", "\u1100", "\u1161"]  # lone combining marks / jamo: strings that compose across a concatenation boundary
 
 
 def gen_str(rng):
@@ -208,6 +208,25 @@ def gen_tree(rng, depth, want, budget):
             return ("bin", rng.choice(["==", "!=", "<", "<=", ">", ">="]), gen_tree(rng, depth - 1, "r", budget), gen_tree(rng, depth - 1, "r", budget))
         if r < 0.85:
             k = rng.choice(["b", "s"])
+            if k == "s" and rng.random() < 0.5:
+                # one string built by concatenation, the other a literal of the whole in another normalisation form: characters may
+                # compose across the boundary of a concatenation ('e' + U+0301), so the canonical form of a sum is not the sum of the forms
+                import unicodedata
+
+                parts = [gen_str(rng)[1] or rng.choice(["e", "a", "\u1100"]) for _ in range(rng.choice([2, 2, 3]))]
+                if rng.random() < 0.7:
+                    parts[1] = rng.choice(["\u0301", "\u0327\u0301", "\u0308x", "\u1161"]) + parts[1]
+                    parts[0] = parts[0] + rng.choice(["e", "a", "\u1100", "c"])
+                left = ("str", parts[0])
+                for p_ in parts[1:]:
+                    left = ("bin", "+", left, ("str", p_))
+                whole = unicodedata.normalize(rng.choice(["NFC", "NFD", "NFC"]), "".join(parts))
+                right = ("str", whole if rng.random() < 0.85 else whole + "x")
+                if rng.random() < 0.3:
+                    return ("bin", "==", ("attr", ("set", (left, right)), "count"), ("int", 1))
+                if rng.random() < 0.5:
+                    left, right = right, left
+                return ("bin", rng.choice(["==", "!="]), left, right)
             return ("bin", rng.choice(["==", "!="]), gen_tree(rng, depth - 1, k, budget), gen_tree(rng, depth - 1, k, budget))
         k = rng.choice(["set-r", "set-r", "set-s"]) if rng.random() < 0.9 else "set-set-r"
         left = gen_tree(rng, depth - 1, k, budget)
